@@ -210,7 +210,7 @@ func TestVerif_C02_Exhaustive(t *testing.T) {
 
 func TestVerif_C02_Random(t *testing.T) {
 	acct := vacct.Get("C02")
-	vacct.RapidCheck(t, vacct.N(60, 3000), func(rt *rapid.T) {
+	vacct.RapidCheck(t, vacct.N(60, 15000), func(rt *rapid.T) {
 		W := rapid.SampledFrom([]int{100, 100, 7}).Draw(rt, "window")
 		nS := rapid.IntRange(1, 2).Draw(rt, "senders")
 		R := vNewDev("R", W, 8)
@@ -238,7 +238,7 @@ func TestVerif_C02_Random(t *testing.T) {
 			acct.Violation("random/"+id, "TestVerif_C02_Random", map[string]any{"window": W, "history": hist, "msg": msg})
 			rt.Fatalf("%s: %s\nhistory: %v", id, msg, hist)
 		}
-		edge, dup, ooo, rereg := false, false, false, false
+		edge, dup, ooo, rereg, pushFirst := false, false, false, false, false
 		attempt := func(si int, k uint64) bool {
 			s := senders[si]
 			m := s.model
@@ -301,7 +301,16 @@ func TestVerif_C02_Random(t *testing.T) {
 				cursor[si] = s.model.c
 				continue
 			}
-			switch rapid.IntRange(0, 9).Draw(rt, "what") {
+			switch rapid.IntRange(0, 10).Draw(rt, "what") {
+			case 10: // the next messages also arrive outside the store first (push); what the push path answers is C14's
+				// subject, here it must simply not disturb the store path
+				for k := cursor[si] + 1; k <= cursor[si]+uint64(rapid.IntRange(1, 3).Draw(rt, "pushes")) && k <= uint64(s.n); k++ {
+					_, _, _, _, err := R.s.OpenOutOfStoreMessage(vctx, c14Push(s.snd.dev, g, s.snd.envs[k-1]))
+					hist = append(hist, fmt.Sprintf("s%d:push%d=%v", si, k, err == nil))
+					if err == nil && !s.model.opened[k] {
+						pushFirst = true
+					}
+				}
 			case 0, 1, 2, 3: // next in order
 				if cursor[si] < uint64(s.n) {
 					cursor[si]++
@@ -357,6 +366,6 @@ func TestVerif_C02_Random(t *testing.T) {
 		nt := edge && dup && ooo
 		acct.Case(nt, fmt.Sprintf("W%d|%s", W, strings.Join(hist, ",")), func() any {
 			return map[string]any{"kind": "random", "window": W, "senders": nS, "history": hist}
-		}, "random", lbl(edge, "random/edge-attempt"), lbl(dup, "random/duplicate"), lbl(ooo, "random/out-of-order-success"), lbl(rereg, "random/re-registration"), lbl(nS > 1, "random/two-senders"))
+		}, "random", lbl(edge, "random/edge-attempt"), lbl(dup, "random/duplicate"), lbl(ooo, "random/out-of-order-success"), lbl(rereg, "random/re-registration"), lbl(nS > 1, "random/two-senders"), lbl(pushFirst, "random/push-before-store"))
 	})
 }
